@@ -115,7 +115,10 @@ func (r *RoundRobin) Select(pool HostPool, request *http.Request) *UpstreamHost 
 	// Return next available host
 	for i := uint32(0); i < poolLen; i++ {
 		r.robin++
-		host := pool[r.robin%poolLen]
+		if r.robin >= poolLen {
+			r.robin = 0
+		}
+		host := pool[r.robin]
 		if host.Available() {
 			return host
 		}
